@@ -25,10 +25,20 @@ import (
 // request arrived, from which source port, and when the reply left; a host-stall monitor (a goroutine that sleeps 2 ms
 // in a loop and records its worst oversleep) decides whether a failed call may be blamed on the library.
 func c08Hammer(c *Ctx, T time.Duration) {
+	c08HammerPhase(c, T, "mixed")
+	// the same with nearly every call on the broadcast path (controllers without a configured address): there the sockets are opened
+	// by other code than on the directed path
+	c08HammerPhase(c, T, "broadcast")
+}
+
+func c08HammerPhase(c *Ctx, T time.Duration, phase string) {
 	G := 48
 	K := c.N(700, 6000)
 	if c.Mode == "race" {
 		K = c.N(120, 900)
+	}
+	if phase == "broadcast" {
+		K = K / 2
 	}
 	total := G * K
 	fm := farm.New()
@@ -91,7 +101,7 @@ func c08Hammer(c *Ctx, T time.Duration) {
 		return []farm.Action{{Data: reply}}
 	})
 
-	serialBase := uint32(0x58000000) + uint32(c.Batch)<<20
+	serialBase := uint32(0x58000000) + uint32(c.Batch)<<20 + uint32(len(phase))<<8
 	type ctl struct {
 		serial uint32
 		path   string
@@ -147,6 +157,8 @@ func c08Hammer(c *Ctx, T time.Duration) {
 				i := int(next.Add(1))
 				ci := 0
 				switch x := rr.Pick(100); {
+				case phase == "broadcast" && x < 92:
+					ci = 3
 				case x < 78:
 					ci = 0
 				case x < 90:
@@ -185,7 +197,7 @@ func c08Hammer(c *Ctx, T time.Duration) {
 	c.Res.Max("max:hammer:in-flight-calls", maxInflight.Load())
 	c.Res.Max("max:hammer:host-stall-ms", stall.Milliseconds())
 	c.Res.Count("hammer:calls", int64(total))
-	c.Res.Note("hammer", fmt.Sprintf("%d goroutines x %d calls on 2 clients (bind port 0) in %.1fs, max in flight %d, worst host stall %v", G, K, wall.Seconds(), maxInflight.Load(), stall))
+	c.Res.Note("hammer:"+phase, fmt.Sprintf("%d goroutines x %d calls on 2 clients (bind port 0) in %.1fs, max in flight %d, worst host stall %v", G, K, wall.Seconds(), maxInflight.Load(), stall))
 	overloaded := stall > T/3
 
 	// the hazard itself, as a diagnostic: two requests in flight at the same time from the same local port to the same controller
@@ -224,9 +236,9 @@ func c08Hammer(c *Ctx, T time.Duration) {
 		c.Res.Eval(1)
 		op := rm.FindOp(hops[h.op].name)
 		path := ctrls[h.ctrl].path
-		c.Res.DistinctKey("hammer", op.Name, path)
-		c.Res.Count("hammer:calls:"+path, 1)
-		w := map[string]any{"phase": "hammer", "goroutines": G, "op": op.Name, "path": path, "id": base + uint32(h.id), "err": h.out.Err, "result": h.out.Fields.String(),
+		c.Res.DistinctKey("hammer", phase, op.Name, path)
+		c.Res.Count("hammer:"+phase+":calls:"+path, 1)
+		w := map[string]any{"phase": "hammer/" + phase, "goroutines": G, "op": op.Name, "path": path, "id": base + uint32(h.id), "err": h.out.Err, "result": h.out.Fields.String(),
 			"call_ms": float64(h.end-h.start) / 1e6, "worst_host_stall_ms": stall.Milliseconds(), "max_in_flight": maxInflight.Load()}
 		if s := shared[h.id]; s != "" {
 			w["observed"] = s
